@@ -69,13 +69,15 @@ CLAIMED = {
     text='PARTIAL. Proved, for every transformed function, filters and variables, about a Gallina model of lift.pack (the building block of all lifted transforms: group_collections, inner '
          'mutability = scope.mutable /\\ out filters /\\ mutable_filter, repack, publish_results): the function sees exactly the collections a `variables` filter matches (first match); collections '
          'that are not lifted / not mutable / not selected for output come out untouched; "unmapped output variables" is unreachable; with default filters it runs on the caller\'s own '
-         'variables and mutability and its writes come back entry by entry. Tied to /repo per run: C01 module programs with nn.jit / nn.remat / identity nn.map_variables children (explicit '
+         'variables and mutability and its writes come back entry by entry; and, on the Linen reference semantics, an identity lift is transparent for every module program, scope path, input and '
+         'variables - running the child as a root on the dicts its scope holds and writing what it leaves back under the scope gives the output and the tree of the plain run, and a module '
+         'never changes a value outside its scope path (two simulations over the fuelled interpreter). Tied to /repo per run: C01 module programs with nn.jit / nn.remat / identity nn.map_variables children (explicit '
          'and automatic names) and nn.cond / nn.switch / nn.while_loop statements, init + 1-3 applies with changing mutable filters, static attributes and variable structure; each lifted '
          'run is compared in Coq with Model/Linen.v on the plain equivalent (transformed class names, control flow resolved) and, on the real code, with the program run as plain Python.',
-    note='Trusted: Coq kernel, vm_compute, harness (plain_equivalent desugaring), jaxcompat, jax.jit / checkpoint / lax control flow. NOT proved: equality of the lifted and the plain program '
-         '(needs a semantics of tracing); decided per run. Keys drawn inside a jitted child are not compared (nn.jit forks RNGs: C09). Branch bodies only set declared variables and keep '
+    note='Trusted: Coq kernel, vm_compute, harness (plain_equivalent desugaring), jaxcompat, jax.jit / checkpoint / lax control flow. NOT proved: that jax.jit / jax.checkpoint / lax control flow evaluate the traced function like Python '
+         '(needs a semantics of tracing) and the control-flow lifts (cond / switch / while_loop); decided per run. Keys drawn inside a jitted child are not compared (nn.jit forks RNGs: C09). Branch bodies only set declared variables and keep '
          'shapes; every branch writes the same variables; trip counts >= 1. named_call, static/donate argnums, custom map_variables functions not covered. No axioms.',
-    technique='Coq proof (filter-partition lemmas over lift.pack) + per-run model-vs-implementation correspondence by vm_compute + lifted-vs-plain oracle on the real code',
+    technique='Coq proof (filter-partition lemmas over lift.pack; sub-tree simulation and path frame over the Linen interpreter) + per-run model-vs-implementation correspondence by vm_compute + lifted-vs-plain oracle on the real code',
     ref='DESIGN.md section 5, C05'),
   'C06': dict(
     text='PARTIAL. The loop model of C08 (Model/NnxLift.v) extended with nn.scan\'s broadcast pre-pass (Model/LinenLoop.v). Proved for every body, role assignment, length, direction, carry and '
